@@ -177,7 +177,7 @@ func connInputs(r *rng.R, thorough bool) [][]byte {
 		for _, vc := range []byte{0x20, 0x21, 0x22, 0x2f, 0x11, 0x31} {
 			for _, fam := range []byte{0x00, 0x11, 0x12, 0x21, 0x22, 0x31, 0x10, 0x13, 0x41, 0xff} {
 				for _, body := range [][]byte{nil, body4, append(append([]byte{}, body4...), tlv...), genBody(9, 36), genBody(9, 40), body4[:5]} {
-					if !thorough && (r.Chance(2, 3) || (p == "x" && vc != 0x21)) {
+					if !thorough && (r.Chance(4, 5) || (p != pay && vc != 0x21)) {
 						continue
 					}
 					ins = append(ins, append(v2header(vc, fam, len(body), body), p...))
@@ -254,4 +254,67 @@ func runConnCases(out string, r *rng.R, thorough bool, m *meta) {
 	}
 	m.ConnCases = len(coq)
 	m.Kinds = append(m.Kinds, writeKind(out, "ccases", "ccase", "ccase_model_ok", "ccase_verdict", coq, js, 150, ""))
+	n := 32
+	if thorough {
+		n = 128
+	}
+	runConnHistory(out, m, n)
+}
+
+// runConnHistory keeps n accepted connections (each with its own header) open at the same time: the addresses are
+// looked at right after the accept, and again - together with the payload - after all the other headers were read.
+// What a connection reports must be its own header's addresses at both times.
+func runConnHistory(out string, m *meta, n int) {
+	tl, err := net.Listen("tcp", "127.0.0.1:0")
+	if err != nil {
+		panic(err)
+	}
+	pl := &proxyproto.Listener{Listener: tl, ReadHeaderTimeout: 3 * time.Second}
+	defer pl.Close()
+	ins := historyInputs(n)
+	type held struct {
+		srv, cl     net.Conn
+		early       connObs
+		sockR, sock net.Addr
+	}
+	hs := make([]held, len(ins))
+	for i, in := range ins {
+		ch := make(chan net.Conn, 1)
+		go func() {
+			c, err := pl.Accept()
+			if err != nil {
+				panic(err)
+			}
+			ch <- c
+		}()
+		cl, err := net.Dial("tcp", pl.Addr().String())
+		if err != nil {
+			panic(err)
+		}
+		if _, err := cl.Write(in); err != nil {
+			panic(err)
+		}
+		cl.(*net.TCPConn).CloseWrite()
+		srv := <-ch
+		hs[i] = held{srv: srv, cl: cl, sockR: cl.LocalAddr(), sock: cl.RemoteAddr()}
+		hs[i].early = connObs{Remote: srv.RemoteAddr(), Local: srv.LocalAddr()}
+	}
+	var coq []string
+	var js []any
+	for i, h := range hs {
+		late := observe(h.srv, 0)
+		note := fmt.Sprintf("history: connection %d of %d re-examined after the later headers were read", i, len(hs))
+		coq = append(coq, coqCcase(ins[i], h.sockR, h.sock, late))
+		js = append(js, ccaseJSON{"conn-history", "tcp", hex.EncodeToString(ins[i]), nil, note})
+		if addrStr(h.early.Remote) != addrStr(late.Remote) || addrStr(h.early.Local) != addrStr(late.Local) {
+			e := late
+			e.Remote, e.Local = h.early.Remote, h.early.Local
+			coq = append(coq, coqCcase(ins[i], h.sockR, h.sock, e))
+			js = append(js, ccaseJSON{"conn-history", "tcp", hex.EncodeToString(ins[i]), nil, note + " (addresses right after the accept; they changed later)"})
+		}
+		h.srv.Close()
+		h.cl.Close()
+	}
+	m.HistoryCases += len(coq)
+	m.Kinds = append(m.Kinds, writeKind(out, "hcases", "ccase", "ccase_model_ok", "ccase_verdict", coq, js, 150, ""))
 }
